@@ -25,7 +25,7 @@ import (
 const spaceRule = "(1) every construct and every ordered pair outer[inner] of a template grammar of constructs (locals, arithmetic/bitwise/comparison operators incl. Float/BigInt/fixed-width, if/unless/ternary-modifier, while/until/loop/for-in/fornum as statements and as values, labelled break/continue with values, " +
 	"return, throw/do-catch-finally (with patterns and stack-trace variable), defer, switch with literal/range/list/tuple/map/record/object/binding/alternative patterns, closures with upvalues, string/symbol/regex interpolation, list/tuple/map/record/set/range literals incl. nested and splats of dynamic elements, " +
 	"&&/||/??, must/try/as, compound assignment incl. ||= &&= ??= and subscript/ivar targets, classes with attrs/init/getters/setters/methods/singleton/mixins/structs, modules, constants, macros with quote/unquote, select, go, generators, async/await, tail calls, optional/rest/named arguments) " +
-	"in a method body (thorough: and in 7 more execution contexts); (2) the C15 body x wrapper family, the C01 binding x context x use family, mini's control-flow chains of depth <= 2 with every exit statement (thorough: depth <= 3 on the core variants), closure terms up to 5 (thorough 6) statements and short-circuit expressions with <= 2 operators"
+	"in a method body (thorough: and in 7 more execution contexts); (1c) every construct directly followed by a final expression compiled only through the value-pool emitters, with a pre-filled pool; (2) the C15 body x wrapper family, the C01 binding x context x use family, mini's control-flow chains of depth <= 2 with every exit statement (thorough: depth <= 3 on the core variants), closure terms up to 5 (thorough 6) statements and short-circuit expressions with <= 2 operators"
 
 // ------------------------------------------------------------------------------------------------ templates
 
@@ -245,6 +245,22 @@ w@ := while i@ < 3
   h@
 end
 (w@ ?? 0)`},
+	{name: "logical-statement", body: `var h@: Int = 0
+n > 1 && leaf29(n)
+n > 5 || leaf29(n)
+var q@: Int? = n
+q@ ?? leaf29(n)
+i@ := 0
+while i@ < 3
+  i@ += 1
+  n > 1 && leaf29(i@)
+  %S
+end
+h@`},
+	{name: "modifier-return-then-call", body: `var h@: Int = 0
+%S
+return h@ if n > 200
+leaf29(h@)`},
 	{name: "early-return", body: `var h@: Int = 0
 if n > 100
   return 7
@@ -764,6 +780,12 @@ func wrap(ctx string, b block) (src string, pool bool) {
 	return s.String(), pool
 }
 
+// tails29: final expressions of a method body that are compiled without the generic emit path (see enumerate, 1c)
+var tails29 = []struct{ name, defs, expr string }{
+	{"pool-call", "module T29\n  def len(s: String): Int then s.length\nend\n", `T29.len("t29")`},
+	{"instantiate-getter", "class I29\n  attr v: Int\n  init(s: String)\n    @v = s.length\n  end\nend\n", `I29("t29").v`},
+}
+
 func needsPool(cs ...construct) bool {
 	for _, c := range cs {
 		if c.async {
@@ -987,6 +1009,25 @@ func enumerate(c *engine.Ctx) {
 				runPrograms(r, ps)
 			})
 		}
+	}
+	// (1c) tail position x pool width: every construct directly followed by a final expression that is emitted only
+	// through the value-pool emitters (constant receiver, pooled literal with an index >= 4, call-site info), the
+	// function's value pool being pre-filled, so that nothing between the construct and the end of the function goes
+	// through the compiler's generic emit path (which is what tracks "the last instruction was a return")
+	for i := range constructs {
+		ci := constructs[i]
+		c.Case("tail/"+ci.name, func(r *engine.R) {
+			var ps []program
+			for _, tl := range tails29 {
+				b := ci.build("1", leafBlock())
+				b.defs += tl.defs
+				b.pre = append([]string{`p29 := "p1".length + "p2".length + "p3".length + "p4".length + "p5".length`}, b.pre...)
+				b.val = tl.expr
+				src, pool := wrap("method", b)
+				ps = append(ps, program{id: "tail/" + ci.name + "/" + tl.name, construct: ci.name + " followed by tail " + tl.name, src: src, pool: pool || ci.async})
+			}
+			runPrograms(r, ps)
+		})
 	}
 	// (1b) wide programs: the 16-bit instruction forms
 	for _, wp := range widePrograms() {
